@@ -4,6 +4,7 @@ A theorem cannot say "rustc accepts"; what is proved is the hygiene that "for
 every naming" needs (first layer: freshness of every chosen internal name).
 -/
 import KikiVerif.Model.Emit
+import KikiVerif.Proofs.EmitTotal
 
 namespace KikiVerif.C05
 open KikiVerif.Emit KikiVerif.Text
@@ -41,6 +42,126 @@ theorem C05_fresh (pref : Str) (used : List Str) (n : Str) (used' : List Str)
       obtain ⟨rfl, rfl⟩ := h
       exact ⟨firstFree_not_used pref used _ _ _ hf, rfl⟩
 
+def Names.toList (n : Names) : List Str :=
+  [n.eof, n.quasiterminal, n.quasiterminalKind, n.nonterminalKind, n.state, n.node, n.action, n.ruleKind,
+   n.reducePrefix, n.actionTable, n.gotoTable, n.parseParam]
+
+/-- **hygiene of the twelve internal names**: they are pairwise distinct and none of them is an identifier the user
+defined (nonterminal, terminal variant, terminal enum) — whatever the user's naming, including names equal to
+the generator's preferred ones and their numbered neighbours -/
+theorem C05_names_distinct (used0 : List Str) (n : Names) (h : chooseNames used0 = some n) :
+    (Names.toList n).Nodup ∧ ∀ x ∈ Names.toList n, x ∉ used0 := by
+  unfold chooseNames at h
+  simp only [Option.bind_eq_bind, Option.pure_def] at h
+  -- peel the twelve calls
+  cases h1 : createUniqueIdentifier (L "Eof") used0 with
+  | none => simp [h1] at h
+  | some r1 =>
+  obtain ⟨a1, u1⟩ := r1
+  simp only [h1, Option.bind_some] at h
+  cases h2 : createUniqueIdentifier (L "Quasiterminal") u1 with
+  | none => simp [h2] at h
+  | some r2 =>
+  obtain ⟨a2, u2⟩ := r2
+  simp only [h2, Option.bind_some] at h
+  cases h3 : createUniqueIdentifier (L "QuasiterminalKind") u2 with
+  | none => simp [h3] at h
+  | some r3 =>
+  obtain ⟨a3, u3⟩ := r3
+  simp only [h3, Option.bind_some] at h
+  cases h4 : createUniqueIdentifier (L "NonterminalKind") u3 with
+  | none => simp [h4] at h
+  | some r4 =>
+  obtain ⟨a4, u4⟩ := r4
+  simp only [h4, Option.bind_some] at h
+  cases h5 : createUniqueIdentifier (L "State") u4 with
+  | none => simp [h5] at h
+  | some r5 =>
+  obtain ⟨a5, u5⟩ := r5
+  simp only [h5, Option.bind_some] at h
+  cases h6 : createUniqueIdentifier (L "Node") u5 with
+  | none => simp [h6] at h
+  | some r6 =>
+  obtain ⟨a6, u6⟩ := r6
+  simp only [h6, Option.bind_some] at h
+  cases h7 : createUniqueIdentifier (L "Action") u6 with
+  | none => simp [h7] at h
+  | some r7 =>
+  obtain ⟨a7, u7⟩ := r7
+  simp only [h7, Option.bind_some] at h
+  cases h8 : createUniqueIdentifier (L "RuleKind") u7 with
+  | none => simp [h8] at h
+  | some r8 =>
+  obtain ⟨a8, u8⟩ := r8
+  simp only [h8, Option.bind_some] at h
+  cases h9 : createUniqueIdentifier (L "reduce") u8 with
+  | none => simp [h9] at h
+  | some r9 =>
+  obtain ⟨a9, u9⟩ := r9
+  simp only [h9, Option.bind_some] at h
+  cases h10 : createUniqueIdentifier (L "ACTION_TABLE") u9 with
+  | none => simp [h10] at h
+  | some r10 =>
+  obtain ⟨a10, u10⟩ := r10
+  simp only [h10, Option.bind_some] at h
+  cases h11 : createUniqueIdentifier (L "GOTO_TABLE") u10 with
+  | none => simp [h11] at h
+  | some r11 =>
+  obtain ⟨a11, u11⟩ := r11
+  simp only [h11, Option.bind_some] at h
+  cases h12 : createUniqueIdentifier (L "S") u11 with
+  | none => simp [h12] at h
+  | some r12 =>
+  obtain ⟨a12, u12⟩ := r12
+  simp only [h12, Option.bind_some, Option.some.injEq] at h
+  subst h
+  obtain ⟨f1, e1⟩ := C05_fresh _ _ _ _ h1
+  obtain ⟨f2, e2⟩ := C05_fresh _ _ _ _ h2
+  obtain ⟨f3, e3⟩ := C05_fresh _ _ _ _ h3
+  obtain ⟨f4, e4⟩ := C05_fresh _ _ _ _ h4
+  obtain ⟨f5, e5⟩ := C05_fresh _ _ _ _ h5
+  obtain ⟨f6, e6⟩ := C05_fresh _ _ _ _ h6
+  obtain ⟨f7, e7⟩ := C05_fresh _ _ _ _ h7
+  obtain ⟨f8, e8⟩ := C05_fresh _ _ _ _ h8
+  obtain ⟨f9, e9⟩ := C05_fresh _ _ _ _ h9
+  obtain ⟨f10, e10⟩ := C05_fresh _ _ _ _ h10
+  obtain ⟨f11, e11⟩ := C05_fresh _ _ _ _ h11
+  obtain ⟨f12, e12⟩ := C05_fresh _ _ _ _ h12
+  -- each name is outside `used0` and differs from the names chosen before it
+  have step : ∀ {v u : List Str} {a : Str}, u = used0 ++ v → (v.Nodup ∧ ∀ x ∈ v, x ∉ used0) → a ∉ u →
+      ((v ++ [a]).Nodup ∧ ∀ x ∈ v ++ [a], x ∉ used0) := by
+    intro v u a hu hv hf
+    subst hu
+    have h1 : a ∉ used0 := fun hm => hf (List.mem_append_left _ hm)
+    have h2 : a ∉ v := fun hm => hf (List.mem_append_right _ hm)
+    constructor
+    · rw [List.nodup_append]
+      exact ⟨hv.1, by simp, by intro x hx y hy; simp at hy; subst hy; intro e; subst e; exact h2 hx⟩
+    · intro x hx
+      rcases List.mem_append.mp hx with hx | hx
+      · exact hv.2 x hx
+      · simp at hx; subst hx; exact h1
+  have s0 : (([] : List Str).Nodup ∧ ∀ x ∈ ([] : List Str), x ∉ used0) := ⟨List.nodup_nil, by intro x hx; cases hx⟩
+  have s1 := step (v := []) (u := used0) (by simp) s0 f1
+  have s2 := step (u := u1) (by rw [e1]; simp) s1 f2
+  have s3 := step (u := u2) (by rw [e2, e1]; simp) s2 f3
+  have s4 := step (u := u3) (by rw [e3, e2, e1]; simp) s3 f4
+  have s5 := step (u := u4) (by rw [e4, e3, e2, e1]; simp) s4 f5
+  have s6 := step (u := u5) (by rw [e5, e4, e3, e2, e1]; simp) s5 f6
+  have s7 := step (u := u6) (by rw [e6, e5, e4, e3, e2, e1]; simp) s6 f7
+  have s8 := step (u := u7) (by rw [e7, e6, e5, e4, e3, e2, e1]; simp) s7 f8
+  have s9 := step (u := u8) (by rw [e8, e7, e6, e5, e4, e3, e2, e1]; simp) s8 f9
+  have s10 := step (u := u9) (by rw [e9, e8, e7, e6, e5, e4, e3, e2, e1]; simp) s9 f10
+  have s11 := step (u := u10) (by rw [e10, e9, e8, e7, e6, e5, e4, e3, e2, e1]; simp) s10 f11
+  have s12 := step (u := u11) (by rw [e11, e10, e9, e8, e7, e6, e5, e4, e3, e2, e1]; simp) s11 f12
+  simpa [Names.toList] using s12
+
+/-- the search for the twelve names always succeeds -/
+theorem C05_names_exist (used0 : List Str) : ∃ n, chooseNames used0 = some n :=
+  EmitTotal.chooseNames_some used0
+
 end KikiVerif.C05
 
 #print axioms KikiVerif.C05.C05_fresh
+#print axioms KikiVerif.C05.C05_names_distinct
+#print axioms KikiVerif.C05.C05_names_exist
